@@ -221,11 +221,12 @@ GROUPS += [
     },
     {
         "id": "C02.extract.v4", "property": "C02", "crate": "core", "stubbing": True, "cbmc_args": FS1100,
-        "harnesses": ["c02_v4_extract", "c02_v4_recv_tcp_socket"], "jobs": 4, "timeout_s": 900, "mem_gb": 12,
-        "functions": ["net::ipv4::Ipv4::{extract_probe_proto_resp,calc_udp_checksum,recv_tcp_socket}",
+        "harnesses": ["c02_v4_extract", "c02_v4_recv_tcp_socket", "c02_channel_tcp_attempts_expire"], "jobs": 4, "timeout_s": 900, "mem_gb": 12,
+        "functions": ["net::ipv4::Ipv4::{extract_probe_proto_resp,calc_udp_checksum,recv_tcp_socket}", "net::channel::Channel::recv_tcp_sockets (expiry)",
                       "net::ipv4::{extract_echo_request,extract_udp_packet,extract_tcp_packet}"],
         "stubs": [SOCK_STUB, CLOCK_STUB, "udp_ipv4_checksum -> arbitrary u16 in the UDP extract harness (cut)"],
-        "bounds": "arbitrary quoted datagram, symbolic length IHL*4+8 ..= 48 (quick) / 64 (thorough), IHL 5..15",
+        "bounds": "arbitrary quoted datagram, symbolic length IHL*4+8 ..= 48 (quick) / 64 (thorough), IHL 5..15; every TCP handshake "
+                  "outcome (connected / refused / host unreachable / other) with symbolic ports, peer and error addresses",
     },
     {
         "id": "C02.extract.v6", "property": "C02", "crate": "core", "stubbing": True, "cbmc_args": FS1100,
